@@ -41,7 +41,8 @@ Definition rneed (n : Z) (o : rop) : Z :=
 (* the domain: no operation reads or leaves a cell at or above the top uninitialised *)
 Definition rop_dom (n : Z) (o : rop) : bool :=
   match o with
-  | RPush _ | RRaisePush => true
+  | RPush _ => true
+  | RRaisePush => false                 (* an error in flight: see raise_has_room; histories stop being compared *)
   | RPop => 0 <? n
   | RGet reg => (0 <=? reg) && (reg <? n)
   | RSet reg _ => (0 <=? reg) && (reg <=? n)
@@ -67,7 +68,7 @@ Definition lstepR (l : list cell) (o : rop) : list cell * option cell :=
   end.
 
 (* a history over (list, limit): an operation that needs more than the limit is refused and changes
-   nothing; raisePush may move the limit by one *)
+   nothing; the limit never moves *)
 Fixpoint lrunR (l : list cell) (lim : Z) (ops : list rop) : list robs :=
   match ops with
   | [] => []
@@ -75,8 +76,7 @@ Fixpoint lrunR (l : list cell) (lim : Z) (ops : list rop) : list robs :=
       if rneed (len l) o >? lim then mkRobs SOverflow None (len l) l :: lrunR l lim rest
       else
         let (l1, ret) := lstepR l o in
-        let lim1 := match o with RRaisePush => Z.max lim (len l + 1) | _ => lim end in
-        mkRobs SOk ret (len l1) l1 :: lrunR l1 lim1 rest
+        mkRobs SOk ret (len l1) l1 :: lrunR l1 lim rest
   end.
 
 Fixpoint ldomR (l : list cell) (lim : Z) (ops : list rop) : bool :=
@@ -85,15 +85,27 @@ Fixpoint ldomR (l : list cell) (lim : Z) (ops : list rop) : bool :=
   | o :: rest =>
       rop_dom (len l) o &&
       (if rneed (len l) o >? lim then ldomR l lim rest
-       else ldomR (fst (lstepR l o)) (match o with RRaisePush => Z.max lim (len l + 1) | _ => lim end) rest)
+       else ldomR (fst (lstepR l o)) lim rest)
   end.
 
-(* the representation relation: r stands for the live list l under the limit lim *)
+(* the representation relation: r stands for the live list l under the limit lim; no error message
+   is in flight (top <= limit) *)
 Record Rr (r : registry) (l : list cell) (lim : Z) : Prop := mkRr {
   rr_top : top r = len l;
-  rr_cap : top r <= cap r;
+  rr_cap : top r <= limit r;
+  rr_lc : limit r <= cap r;
   rr_live : live r = l;
-  rr_lim : Z.max (cap r) (maxSize r) = lim;
-  rr_grow : 0 <= growBy r \/ maxSize r <= cap r    (* NewState: growth disabled (maxSize 0) or step >= 1 *)
+  rr_lim : Z.max (limit r) (maxSize r) = lim;
+  rr_grow : 0 <= growBy r \/ maxSize r <= limit r    (* NewState: growth disabled (maxSize 0) or step >= 1 *)
 }.
 
+(* the same while an error message may sit in the cell beyond the limit *)
+Record Rr1 (r : registry) (l : list cell) (lim : Z) : Prop := mkRr1 {
+  rr1_top : top r = len l;
+  rr1_cap : top r <= cap r;
+  rr1_tl : top r <= limit r + 1;
+  rr1_lc : limit r <= cap r;
+  rr1_live : live r = l;
+  rr1_lim : Z.max (limit r) (maxSize r) = lim;
+  rr1_grow : 0 <= growBy r \/ maxSize r <= limit r
+}.
